@@ -18,6 +18,7 @@
 #include <time.h>
 
 extern time_t vf_now;        /* value returned by time() (harness-owned clock) */
+extern void (*vf_time_hook)(void);   /* called on every time() call (scheduler point) */
 extern int vf_thorough;      /* 0 = quick tier, 1 = thorough tier */
 extern const char *vf_prop;  /* --prop argument ("" if none) */
 extern int vf_replaying;     /* 1 when running a single case by index */
